@@ -20,7 +20,7 @@ from vlib import prove
 class Result:
   def __init__(s, name):
     s.r = dict(name=name, obligations=0, discharged=0, states=0, transitions=0, violations=[],
-               inconclusive=[], samples=[], twins_expected=0, twins_sat=0, distinct=[])
+               inconclusive=[], samples=[], twins_expected=0, twins_sat=0, distinct=[], replays=0, programs=0)
 
   def __getitem__(s, k): return s.r[k]
   def __setitem__(s, k, v): s.r[k] = v
